@@ -34,6 +34,18 @@ theorem registry_matches_api : schemaApiChunks.all apiMatchOk = true := api_matc
 /-- the same for the wire-used definitions of the MTProto service schema -/
 theorem registry_matches_service : schemaMtChunks.all mtMatchOk = true := mt_match_ok
 
+/-- **the fields are the parameters, by name**: for every constructor and method of the API schema and
+every wire-used service definition, field i of the registered type is named after parameter i of the
+schema line (`first_msg_id` ↔ `FirstMsgID`: equal after dropping `_` and folding case; the six
+hand-written service fields that are named otherwise are listed one by one in `nameExceptions`). Two
+parameters of the same type declared in the wrong order satisfy `registry_matches_*` (type and
+position agree) and fail here. Third conjunct: the name table is the registry's — one row per
+registered constructor, under its id, one name per field. -/
+theorem field_names_match :
+    schemaApiChunks.all apiNamesOk = true ∧ schemaMtChunks.all mtNamesOk = true ∧
+    regNamesChunksOk registryChunks fieldNamesChunks = true :=
+  ⟨api_names_ok, mt_names_ok, reg_names_ok⟩
+
 /-- the join tables used by the two theorems above are exactly what they stand for: every
 constructor is in the entry of its type, every registered constructor in the entries of its interfaces
 and enum type, and the entries hold nothing else (counts) -/
@@ -78,6 +90,21 @@ example :
     defMatch TA registry
       ⟨⟨13, 0⟩, 0x7b8e7de6, ⟨8, 0⟩, [⟨⟨11, 0⟩, none, .prim bLong⟩, ⟨⟨7, 0⟩, none, .prim bInt⟩],
        ⟨9, 0x496e70757450656572⟩, .ref ⟨9, 0x496e70757450656572⟩, false, ⟨0, 0⟩⟩ = false := by
+  decide +kernel
+
+/-- names: `new_session_created#9ec20908 first_msg_id:long unique_id:long server_salt:long` against the
+fields `FirstMsgID, UniqueID, ServerSalt` holds; against the same three `int64` fields with the last
+two exchanged (a layout `defMatch` cannot tell from the right one) it fails; a listed exception holds
+only for its own definition -/
+example :
+    namesMatch ⟨19, 0x6e65775f73657373696f6e5f63726561746564⟩
+      [⟨12, 0x66697273745f6d73675f6964⟩, ⟨9, 0x756e697175655f6964⟩, ⟨11, 0x7365727665725f73616c74⟩]
+      [⟨10, 0x46697273744d73674944⟩, ⟨8, 0x556e697175654944⟩, ⟨10, 0x53657276657253616c74⟩] = true ∧
+    namesMatch ⟨19, 0x6e65775f73657373696f6e5f63726561746564⟩
+      [⟨12, 0x66697273745f6d73675f6964⟩, ⟨9, 0x756e697175655f6964⟩, ⟨11, 0x7365727665725f73616c74⟩]
+      [⟨10, 0x46697273744d73674944⟩, ⟨10, 0x53657276657253616c74⟩, ⟨8, 0x556e697175654944⟩] = false ∧
+    nameMatch ⟨10, 0x7270635f726573756c74⟩ ⟨6, 0x726573756c74⟩ ⟨3, 0x4f626a⟩ = true ∧
+    nameMatch ⟨9, 0x7270635f6572726f72⟩ ⟨6, 0x726573756c74⟩ ⟨3, 0x4f626a⟩ = false := by
   decide +kernel
 
 end Mtv.C13
